@@ -201,11 +201,17 @@ Next ==
     /\ l' = l + 1
     /\ LET e == Rec[l] IN
        IF e.op = "reset"
-       THEN /\ root' = e.root /\ rix' = e.rix
-            /\ ent' = IF e.rix >= 0 THEN (e.root :> (e.rix :> [addr |-> e.root, flags |-> {P, RW}]))
-                                    ELSE << >>
-            /\ amap' = << >> /\ free' = SeqSet(e.pool) /\ lastClean' = << >>
-            /\ skip' = FALSE /\ bad' = bad /\ tfs' = {e.root}
+       THEN LET base == IF e.rix >= 0 THEN (e.root :> (e.rix :> [addr |-> e.root, flags |-> {P, RW}]))
+                                      ELSE << >>
+                \* an injected pre-state (specification -> implementation replay): adopt the table
+                \* memory and the mappings it contains
+                m0 == ApplyDiff(base, e.mem, 1)
+            IN /\ root' = e.root /\ rix' = e.rix
+               /\ ent' = m0
+               /\ amap' = IF e.mem = << >> THEN << >> ELSE DeriveAmapR(m0, e.root, e.rix)
+               /\ free' = SeqSet(e.pool) /\ lastClean' = << >>
+               /\ skip' = FALSE /\ bad' = bad
+               /\ tfs' = IF e.mem = << >> THEN {e.root} ELSE TableFramesOfR(m0, e.root, e.rix)
        ELSE IF skip THEN UNCHANGED <<vars, bad, skip, tfs>>
        ELSE LET st == Step(e) IN
             IF st.ok
